@@ -1,6 +1,7 @@
 SPECIFICATION Spec
 CONSTANT Mode = "fixed"
 CONSTANT IntoMode = "skip_zst"
+CONSTANT EncMode = "faithful"
 CONSTANT Tier = "quick"
 INVARIANT LayoutRoundTrip
 INVARIANT IndexInjective
